@@ -350,6 +350,10 @@ func New(o Opts) *World {
 	w.Cfg = cfg
 	w.Mem = storage.NewMemoryStore()
 	w.Mem.Users[UserName] = storage.MemoryUserRelation{Username: UserName, Password: UserPass}
+	if o.Mode.Hydrate {
+		// the SQL-like store: hydrates the session prototype and annotates its errors
+		o.Mode.WrapErrors = true
+	}
 	w.Store = NewIStore(w.Mem, o.Mode)
 	specs := o.Clients
 	if specs == nil {
